@@ -54,6 +54,13 @@ Theorem C18_order :
 Proof. intros fuel o ops p H. exact (proj2 (pops_ok fuel o ops p H)). Qed.
 Print Assumptions C18_order.
 
+(* run()'s own except handler cannot raise, whatever the event is called (a str, with or without % directives, a tuple of
+   any length, a counter id): the log call there has a constant template (regenerated table T18 pins its shape; an
+   eagerly interpolated `template % name` is modelled and would falsify this and C18_raise_isolated for tuple names) *)
+Theorem C18_handler_safe : forall n r, handler_raises n = false /\ after_call n r = false.
+Proof. intros n r. split; [apply handler_never|apply after_call_never]. Qed.
+Print Assumptions C18_handler_safe.
+
 (* an event that raises does not stop the loop nor escape run(): run() never raises, and (C18_due_executed) drains *)
 Theorem C18_raise_isolated :
   forall fuel o ops k, snd (run_loop k (reach fuel o ops)) = Ok tt.
